@@ -551,6 +551,8 @@ class ExprMixin:
             sk = z3.simplify(k)
             if z3.is_int_value(sk) and sk.as_long() >= 0:
                 idx = sk
+            elif self.specmode:
+                idx = k        # specifications index with non-negative integers only (DESIGN 2.4)
             t = seq.t[idx]
             return self.from_val(t, seq.elem) if seq.elem is not None else SDyn(t)
         if isinstance(base, SStr) and isinstance(key, (SInt, SBool)):
